@@ -208,6 +208,7 @@ fn in_pool_nosend<R>(n: usize, f: impl FnOnce() -> R) -> R {
    if n == 0 {
       return f();
    }
+   let outer = OUTER_POOL.with(|c| c.get());
    // SAFETY-free trampoline: run f on this thread if it is already a worker of a pool of the right size,
    // otherwise build a pool and install. `install` needs Send; wrap in AssertSend: the closure is executed
    // exactly once while this thread blocks, so no concurrent access to captured state happens.
@@ -215,11 +216,26 @@ fn in_pool_nosend<R>(n: usize, f: impl FnOnce() -> R) -> R {
    unsafe impl<T> Send for AssertSend<T> {}
    let pool = rayon::ThreadPoolBuilder::new().num_threads(n).build().expect("pool");
    let w = AssertSend(f);
-   let r = pool.install(move || {
-      let w = w;
-      AssertSend((w.0)())
-   });
+   let r = if outer > 0 {
+      // nested install: the inner pool is entered from inside a worker of an outer pool
+      let outer_pool = rayon::ThreadPoolBuilder::new().num_threads(outer).build().expect("outer pool");
+      outer_pool.install(move || {
+         pool.install(move || {
+            let w = w;
+            AssertSend((w.0)())
+         })
+      })
+   } else {
+      pool.install(move || {
+         let w = w;
+         AssertSend((w.0)())
+      })
+   };
    r.0
+}
+
+thread_local! {
+   static OUTER_POOL: std::cell::Cell<usize> = const { std::cell::Cell::new(0) };
 }
 
 fn compact_scc(s: &str) -> String {
@@ -244,6 +260,7 @@ pub fn run_job<P: Prog>(job: &Job, out: &mut dyn Write) {
    let perturb = job.params.get("perturb").map(|v| v.parse::<u64>().unwrap()).unwrap_or(0);
    let spin = job.param_usize("spin", 0);
    let fulldump = job.param_usize("fulldump", 0) == 1;
+   OUTER_POOL.with(|c| c.set(job.param_usize("outer", 0)));
 
    let stop = Arc::new(AtomicBool::new(false));
    let spinners: Vec<_> = (0..spin)
@@ -392,15 +409,59 @@ pub fn main_with(table: &[(&str, Runner)]) {
    let map: HashMap<&str, Runner> = table.iter().cloned().collect();
    let f = std::fs::OpenOptions::new().create(true).append(true).open(&args[2]).expect("out file");
    let mut out = std::io::BufWriter::new(f);
-   for (i, job) in jobs.iter().enumerate().skip(skip) {
-      writeln!(out, "BEGIN {} {}", i, job.id).unwrap();
-      out.flush().unwrap();
-      match map.get(job.prog.as_str()) {
-         None => writeln!(out, "NOPROG {}", job.prog).unwrap(),
-         Some(r) => r(job, &mut out),
+   let mut i = skip;
+   while i < jobs.len() {
+      let job = &jobs[i];
+      let group = job.params.get("group").cloned();
+      let mut j = i + 1;
+      if group.is_some() {
+         while j < jobs.len() && jobs[j].params.get("group") == group.as_ref() {
+            j += 1;
+         }
       }
-      writeln!(out, "END {} {}", i, job.id).unwrap();
-      out.flush().unwrap();
+      if group.is_none() || j == i + 1 {
+         writeln!(out, "BEGIN {} {}", i, job.id).unwrap();
+         out.flush().unwrap();
+         match map.get(job.prog.as_str()) {
+            None => writeln!(out, "NOPROG {}", job.prog).unwrap(),
+            Some(r) => r(job, &mut out),
+         }
+         writeln!(out, "END {} {}", i, job.id).unwrap();
+         out.flush().unwrap();
+      } else {
+         // all jobs of the group start together on separate OS threads
+         writeln!(out, "BEGIN {} {}", i, job.id).unwrap();
+         out.flush().unwrap();
+         let barrier = std::sync::Arc::new(std::sync::Barrier::new(j - i));
+         let bufs: Vec<Vec<u8>> = std::thread::scope(|sc| {
+            let handles: Vec<_> = (i..j)
+               .map(|k| {
+                  let job = &jobs[k];
+                  let runner = map.get(job.prog.as_str()).cloned();
+                  let barrier = barrier.clone();
+                  sc.spawn(move || {
+                     let mut buf: Vec<u8> = vec![];
+                     barrier.wait();
+                     match runner {
+                        None => writeln!(buf, "NOPROG {}", job.prog).unwrap(),
+                        Some(r) => r(job, &mut buf),
+                     }
+                     buf
+                  })
+               })
+               .collect();
+            handles.into_iter().map(|h| h.join().unwrap_or_else(|_| b"PANIC rep=0 job thread panicked outside the program\n".to_vec())).collect()
+         });
+         for (k, buf) in (i..j).zip(bufs) {
+            if k != i {
+               writeln!(out, "BEGIN {} {}", k, jobs[k].id).unwrap();
+            }
+            out.write_all(&buf).unwrap();
+            writeln!(out, "END {} {}", k, jobs[k].id).unwrap();
+         }
+         out.flush().unwrap();
+      }
+      i = j;
    }
    writeln!(out, "ALLDONE").unwrap();
    out.flush().unwrap();
